@@ -188,12 +188,13 @@ Record sstate := St {
   s_rebalances : N;                   (* metric.Rebalance *)
   s_ctxs : list (N * offset);         (* ListenerContexts handed out so far: Ack i uses the i-th *)
   s_inflight : option (list (N * doc) * list N);  (* a Save is inside Metadata.Save *)
+  s_queued : nat;                     (* Save() calls waiting for the save lock behind it *)
   s_store : fmap doc;                 (* the durable metadata store (environment) *)
   s_failed : bool                     (* the process panicked *)
 }.
 
 Definition init_state (c : cfg) (store : fmap doc) : sstate :=
-  St c None fempty fempty false fempty true false false 0%Z false false false false 0 [] None store false.
+  St c None fempty fempty false fempty true false false 0%Z false false false false 0 [] None 0%nat store false.
 
 Definition in_range (r : option (N * N)) (vb : N) : bool :=
   match r with Some (a, b) => (a <=? vb) && (vb <=? b) | None => false end.
@@ -205,15 +206,16 @@ Definition all_vbs : list N := vb_list 0 1023.
 Definition range_list (r : option (N * N)) : list N :=
   match r with Some (a, b) => vb_list a b | None => [] end.
 
-Definition set_offs s m := St (s_cfg s) (s_range s) m (s_dirty s) (s_any_dirty s) (s_obs s) (s_obs_nil s) (s_open s) (s_balancing s) (s_active s) (s_fin_close s) (s_fin_end s) (s_cancel s) (s_stopped s) (s_rebalances s) (s_ctxs s) (s_inflight s) (s_store s) (s_failed s).
-Definition set_dirty s m a := St (s_cfg s) (s_range s) (s_offs s) m a (s_obs s) (s_obs_nil s) (s_open s) (s_balancing s) (s_active s) (s_fin_close s) (s_fin_end s) (s_cancel s) (s_stopped s) (s_rebalances s) (s_ctxs s) (s_inflight s) (s_store s) (s_failed s).
-Definition set_obs s m := St (s_cfg s) (s_range s) (s_offs s) (s_dirty s) (s_any_dirty s) m (s_obs_nil s) (s_open s) (s_balancing s) (s_active s) (s_fin_close s) (s_fin_end s) (s_cancel s) (s_stopped s) (s_rebalances s) (s_ctxs s) (s_inflight s) (s_store s) (s_failed s).
-Definition set_ctxs s l := St (s_cfg s) (s_range s) (s_offs s) (s_dirty s) (s_any_dirty s) (s_obs s) (s_obs_nil s) (s_open s) (s_balancing s) (s_active s) (s_fin_close s) (s_fin_end s) (s_cancel s) (s_stopped s) (s_rebalances s) l (s_inflight s) (s_store s) (s_failed s).
-Definition set_inflight s i := St (s_cfg s) (s_range s) (s_offs s) (s_dirty s) (s_any_dirty s) (s_obs s) (s_obs_nil s) (s_open s) (s_balancing s) (s_active s) (s_fin_close s) (s_fin_end s) (s_cancel s) (s_stopped s) (s_rebalances s) (s_ctxs s) i (s_store s) (s_failed s).
-Definition set_store s m := St (s_cfg s) (s_range s) (s_offs s) (s_dirty s) (s_any_dirty s) (s_obs s) (s_obs_nil s) (s_open s) (s_balancing s) (s_active s) (s_fin_close s) (s_fin_end s) (s_cancel s) (s_stopped s) (s_rebalances s) (s_ctxs s) (s_inflight s) m (s_failed s).
-Definition set_failed s := St (s_cfg s) (s_range s) (s_offs s) (s_dirty s) (s_any_dirty s) (s_obs s) (s_obs_nil s) (s_open s) (s_balancing s) (s_active s) (s_fin_close s) (s_fin_end s) (s_cancel s) (s_stopped s) (s_rebalances s) (s_ctxs s) (s_inflight s) (s_store s) true.
+Definition set_offs s m := St (s_cfg s) (s_range s) m (s_dirty s) (s_any_dirty s) (s_obs s) (s_obs_nil s) (s_open s) (s_balancing s) (s_active s) (s_fin_close s) (s_fin_end s) (s_cancel s) (s_stopped s) (s_rebalances s) (s_ctxs s) (s_inflight s) (s_queued s) (s_store s) (s_failed s).
+Definition set_dirty s m a := St (s_cfg s) (s_range s) (s_offs s) m a (s_obs s) (s_obs_nil s) (s_open s) (s_balancing s) (s_active s) (s_fin_close s) (s_fin_end s) (s_cancel s) (s_stopped s) (s_rebalances s) (s_ctxs s) (s_inflight s) (s_queued s) (s_store s) (s_failed s).
+Definition set_obs s m := St (s_cfg s) (s_range s) (s_offs s) (s_dirty s) (s_any_dirty s) m (s_obs_nil s) (s_open s) (s_balancing s) (s_active s) (s_fin_close s) (s_fin_end s) (s_cancel s) (s_stopped s) (s_rebalances s) (s_ctxs s) (s_inflight s) (s_queued s) (s_store s) (s_failed s).
+Definition set_ctxs s l := St (s_cfg s) (s_range s) (s_offs s) (s_dirty s) (s_any_dirty s) (s_obs s) (s_obs_nil s) (s_open s) (s_balancing s) (s_active s) (s_fin_close s) (s_fin_end s) (s_cancel s) (s_stopped s) (s_rebalances s) l (s_inflight s) (s_queued s) (s_store s) (s_failed s).
+Definition set_inflight s i := St (s_cfg s) (s_range s) (s_offs s) (s_dirty s) (s_any_dirty s) (s_obs s) (s_obs_nil s) (s_open s) (s_balancing s) (s_active s) (s_fin_close s) (s_fin_end s) (s_cancel s) (s_stopped s) (s_rebalances s) (s_ctxs s) i (s_queued s) (s_store s) (s_failed s).
+Definition set_queued s q := St (s_cfg s) (s_range s) (s_offs s) (s_dirty s) (s_any_dirty s) (s_obs s) (s_obs_nil s) (s_open s) (s_balancing s) (s_active s) (s_fin_close s) (s_fin_end s) (s_cancel s) (s_stopped s) (s_rebalances s) (s_ctxs s) (s_inflight s) q (s_store s) (s_failed s).
+Definition set_store s m := St (s_cfg s) (s_range s) (s_offs s) (s_dirty s) (s_any_dirty s) (s_obs s) (s_obs_nil s) (s_open s) (s_balancing s) (s_active s) (s_fin_close s) (s_fin_end s) (s_cancel s) (s_stopped s) (s_rebalances s) (s_ctxs s) (s_inflight s) (s_queued s) m (s_failed s).
+Definition set_failed s := St (s_cfg s) (s_range s) (s_offs s) (s_dirty s) (s_any_dirty s) (s_obs s) (s_obs_nil s) (s_open s) (s_balancing s) (s_active s) (s_fin_close s) (s_fin_end s) (s_cancel s) (s_stopped s) (s_rebalances s) (s_ctxs s) (s_inflight s) (s_queued s) (s_store s) true.
 (* the end-of-stream bookkeeping: active count, end-finish flag, stopped *)
-Definition set_end s ac fe st := St (s_cfg s) (s_range s) (s_offs s) (s_dirty s) (s_any_dirty s) (s_obs s) (s_obs_nil s) (s_open s) (s_balancing s) ac (s_fin_close s) fe (s_cancel s) st (s_rebalances s) (s_ctxs s) (s_inflight s) (s_store s) (s_failed s).
+Definition set_end s ac fe st := St (s_cfg s) (s_range s) (s_offs s) (s_dirty s) (s_any_dirty s) (s_obs s) (s_obs_nil s) (s_open s) (s_balancing s) ac (s_fin_close s) fe (s_cancel s) st (s_rebalances s) (s_ctxs s) (s_inflight s) (s_queued s) (s_store s) (s_failed s).
 
 (* setOffset (stream.go l.88-109): range guard, regression guard, TrackOffset, dirty mark.
    The dirty mark also raises the "any dirty" flag (repaired defect K2, see known_findings.json). *)
@@ -289,6 +291,7 @@ Inductive op :=
   | Deliver (vb : N) (e : ev)
   | Ack (i : nat)                  (* the consumer calls Ack of the i-th context it received *)
   | SaveBegin                      (* Save() up to the entry of Metadata.Save *)
+  | SaveQueue                      (* a second Save() while one is in flight: it waits for the save lock *)
   | SaveWrite (vb : N)             (* the write of one dirty vBucket's document lands in the store *)
   | SaveEnd (ok : bool)            (* Metadata.Save returns nil (all remaining dirty documents written) or an error *)
   | Crash                          (* process dies; only the store survives *)
@@ -313,7 +316,7 @@ Definition do_open (s : sstate) (first last : N) (sv : server) : option (sstate 
         end in
       let s1 := St (s_cfg s) (Some (first, last)) offs dirty any obsm false true (s_balancing s)
                   (Z.of_nat (length vbs)) false false (s_cancel s) (s_stopped s) (s_rebalances s)
-                  (s_ctxs s) (s_inflight s) st false in
+                  (s_ctxs s) (s_inflight s) (s_queued s) st false in
       Some (s1, [Callback BeforeStreamStart]
                  ++ flat_map (fun vb => match offs vb with Some o => [OpenReq vb o] | None => [] end) vbs
                  ++ [Callback AfterStreamStart])
@@ -329,11 +332,29 @@ Definition do_close (s : sstate) (cancel : bool) : sstate * list out * bool :=
                                    | None => None end in
   let s1 := St (s_cfg s) (s_range s) fempty fempty (s_any_dirty s) obsm true false (s_balancing s) (s_active s)
               (s_fin_close s || tok) (s_fin_end s) cancel (s_stopped s) (s_rebalances s)
-              (s_ctxs s) (s_inflight s) (s_store s) false in
+              (s_ctxs s) (s_inflight s) (s_queued s) (s_store s) false in
   (s1, [Callback BeforeStreamStop] ++ closes ++ [Callback AfterStreamStop], tok).
 
-Definition mark_stopped s := St (s_cfg s) (s_range s) (s_offs s) (s_dirty s) (s_any_dirty s) (s_obs s) (s_obs_nil s) (s_open s) (s_balancing s) (s_active s) (s_fin_close s) (s_fin_end s) (s_cancel s) true (s_rebalances s) (s_ctxs s) (s_inflight s) (s_store s) (s_failed s).
-Definition set_balancing s b r := St (s_cfg s) (s_range s) (s_offs s) (s_dirty s) (s_any_dirty s) (s_obs s) (s_obs_nil s) (s_open s) b (s_active s) (s_fin_close s) (s_fin_end s) (s_cancel s) (s_stopped s) r (s_ctxs s) (s_inflight s) (s_store s) (s_failed s).
+Definition mark_stopped s := St (s_cfg s) (s_range s) (s_offs s) (s_dirty s) (s_any_dirty s) (s_obs s) (s_obs_nil s) (s_open s) (s_balancing s) (s_active s) (s_fin_close s) (s_fin_end s) (s_cancel s) true (s_rebalances s) (s_ctxs s) (s_inflight s) (s_queued s) (s_store s) (s_failed s).
+Definition set_balancing s b r := St (s_cfg s) (s_range s) (s_offs s) (s_dirty s) (s_any_dirty s) (s_obs s) (s_obs_nil s) (s_open s) b (s_active s) (s_fin_close s) (s_fin_end s) (s_cancel s) (s_stopped s) r (s_ctxs s) (s_inflight s) (s_queued s) (s_store s) (s_failed s).
+
+(* the body of Save() under the save lock: dump, hand the dirty set over, call the store *)
+Definition save_body (s : sstate) : sstate * list out :=
+  let vbs := range_list (s_range s) in
+  let dump := dump_of (s_offs s) vbs in
+  (* the dirty map is walked as it is: it may hold marks of vBuckets outside the range (given
+     back by a failed save that straddled a rebalance); they have no document in the dump *)
+  let dl := dirty_of (s_dirty s) all_vbs in
+  (* the dirty set is handed over to this save: marks made from now on belong to the next one
+     (repaired defect K3) *)
+  (set_inflight (set_dirty s fempty false) (Some (dump, dl)), [MetaSave dump dl]).
+
+(* when a save returns, the next waiting Save() takes the lock and runs its body *)
+Definition next_queued (s : sstate) : sstate * list out :=
+  match s_queued s with
+  | O => (s, [])
+  | S q => save_body (set_queued s q)
+  end.
 
 Definition step (s : sstate) (o : op) : sstate * list out :=
   if s_failed s then (s, [Ignored]) else
@@ -386,16 +407,14 @@ Definition step (s : sstate) (o : op) : sstate * list out :=
   | SaveBegin =>
       match s_inflight s with
       | Some _ => (s, [Ignored])
-      | None =>
-          if negb (s_any_dirty s) then (s, [NoSave]) else
-          let vbs := range_list (s_range s) in
-          let dump := dump_of (s_offs s) vbs in
-          (* the dirty map is walked as it is: it may hold marks of vBuckets outside the range (given
-             back by a failed save that straddled a rebalance); they have no document in the dump *)
-          let dl := dirty_of (s_dirty s) all_vbs in
-          (* the dirty set is handed over to this save: marks made from now on belong to the next one
-             (repaired defect K3) *)
-          (set_inflight (set_dirty s fempty false) (Some (dump, dl)), [MetaSave dump dl])
+      | None => if negb (s_any_dirty s) then (s, [NoSave]) else save_body s
+      end
+  | SaveQueue =>
+      match s_inflight s with
+      | None => (s, [Ignored])
+      | Some _ =>
+          (* the flag is read before the lock is taken *)
+          if negb (s_any_dirty s) then (s, [NoSave]) else (set_queued s (S (s_queued s)), [])
       end
   | SaveWrite vb =>
       match s_inflight s with
@@ -411,11 +430,11 @@ Definition step (s : sstate) (o : op) : sstate * list out :=
       | Some (dump, dl) =>
           if ok then
             let st := fold_left (fun m vb => match lookup_doc dump vb with Some d => fupd m vb d | None => m end) dl (s_store s) in
-            (set_inflight (set_store s st) None, [])
+            next_queued (set_inflight (set_store s st) None)
           else
             (* nothing is forgotten: the handed-over marks go back *)
             let dm := fold_left (fun m vb => fupd m vb true) dl (s_dirty s) in
-            (set_inflight (set_dirty s dm true) None, [])
+            next_queued (set_inflight (set_dirty s dm true) None)
       | None => (s, [Ignored])
       end
   | Crash =>
